@@ -291,7 +291,7 @@ def paths_for(rules, rng, limit, maxparts=None, extra=()):
                 if sg["k"] == "lit":
                     parts.append(sg["pre"])
                 elif sg["conv"] == "path":
-                    parts.append(rng.choice(["a", "a/b", "a/b/c", "12/x"]))
+                    parts.append(rng.choice(["a", "a/b", "a/b/c", "12/x", "a//b", "x//y/z"]))
                 else:
                     cand = [t for t in tokens_for([rule([sg])], extra=[sg["pre"] + e + sg["post"] for e in extra]) if t.startswith(sg["pre"]) and t.endswith(sg["post"]) and t]
                     parts.append(rng.choice(cand) if cand else "a")
@@ -779,3 +779,55 @@ def record_repo_tests(tmp, files=("tests/test_routing.py", "tests/middleware/tes
     if not os.path.exists(out):
         return None, tail
     return json.load(open(out)), tail
+
+
+# ---------------------------------------------------------------------------- C12: doubled slashes that belong to the match
+def own_slash_groups(rng, quick):
+    """Maps in which a `//` of the request legitimately belongs to the match (so no merged-slashes redirect may
+    touch it): (a) the value of a trailing path converter ("slashes in variable parts are not merged"), (b) a
+    literal `//` of a rule that opted out with merge_slashes=False inside a map that merges.  Both are requested
+    with and without the trailing slash, so the missing-slash redirect has to keep the `//`.
+    Yields (rules, map_strict, map_merge, paths)."""
+    out = []
+    P = lambda n="name": var("path", n)
+    for pre in (["files"], ["d", "raw"], []):
+        for strict in ("d", "t", "f"):
+            for branch in (True, False):
+                base = rule([lit(x) for x in pre] + [P()], branch=branch, strict=strict, merge=rng.choice("ddt"))
+                stem = "/" + "/".join(pre + [""]) if pre else "/"
+                vals = ["a//b", "a//b//c", "a/b", "x//y/z", "12//x", "a//b/"]
+                paths = [stem + v for v in vals] + [stem + v + "/" for v in vals[:4]] + ["//evil.com" + stem + "a//b", stem + "a//b//"]
+                others = rng.choice([[], [rule([lit(x) for x in pre] + [lit("a"), lit("b")], branch=True)],
+                                     [rule([lit(x) for x in pre] + [var("string", "s")], branch=True)], random_rules(rng, 1)])
+                for o in others:
+                    o["methods"] = None
+                rules = [base] + [dict(o) for o in others]
+                rng.shuffle(rules)
+                out.append((rules, rng.random() < 0.8, True, paths))
+    # (b) rule-level opt-out: the empty literal segment is the rule's own `//`
+    optouts = [
+        [lit("raw"), lit(""), lit("data")],
+        [lit("no"), lit(""), lit("merge")],
+        [lit("raw"), lit(""), var("int", "n")],
+        [lit("v"), var("string", "s"), lit(""), lit("x")],
+    ]
+    for segs in optouts:
+        for branch in (True, False):
+            for strict in ("d", "t", "f"):
+                base = rule(segs, branch=branch, strict=strict, merge="f")
+                inst = [s["pre"] if s["k"] == "lit" else {"int": "7", "string": "ab"}[s["conv"]] for s in segs]
+                p = "/" + "/".join(inst)
+                single = "/" + "/".join(x for x in inst if x)
+                paths = [p, p + "/", single, single + "/", "//evil.com" + p, p + "//", p.replace("//", "///")]
+                twin = rule([s for s in segs if not (s["k"] == "lit" and s["pre"] == "")], branch=rng.random() < 0.5,
+                            merge=rng.choice("dt"))          # the merged spelling as a rule of its own (merging map)
+                for others in ([], [twin], random_rules(rng, 1)):
+                    for o in others:
+                        o["methods"] = None
+                    rules = [base] + [dict(o) for o in others]
+                    rng.shuffle(rules)
+                    out.append((rules, rng.random() < 0.8, True, paths))
+    if quick:
+        rng.shuffle(out)
+        out = out[:40]
+    return out
